@@ -21,6 +21,7 @@ case kinds
 """
 import json
 import sys
+import time
 import warnings
 from fractions import Fraction
 
@@ -350,11 +351,13 @@ def main():
         raise CaseTimeout()
     signal.signal(signal.SIGALRM, on_alarm)
     for c in cases:
+        t0 = time.time()
         try:
-            signal.alarm(int(c.get('timeout', 60)))
+            signal.alarm(int(c.get('timeout', 30)))
             with contextlib.redirect_stdout(io.StringIO()):
                 r = tab[c['kind']](c)
             signal.alarm(0)
+            r['secs'] = round(time.time() - t0, 2)
             res.append(r)
         except CaseTimeout:
             res.append({'timeout': True})
